@@ -23,8 +23,10 @@ Three things live here:
    -> snapshot, seeding `random` and `numpy.random` identically before each call.
 """
 import collections
+import contextlib
 import hashlib
 import inspect
+import io
 import json
 import random
 
@@ -187,7 +189,8 @@ def _render(t):
     if k == "map":
         return "%s{%s}" % ("" if t["t"] == "dict" else t["t"], ", ".join("%s: %s" % (_render(a), _render(b)) for a, b in t["items"]))
     if k == "graph":
-        return "%s(nodes=%s, edges=%d)" % (t["t"], [_render(n) for n, _ in t["nodes"]], sum(len(r) for _, r in t["adj"]))
+        return "%s(nodes=[%s], adjacency entries=%d)" % (t["t"], ", ".join(_render(n) for n, _ in t["nodes"]),
+                                                         sum(len(r) for _, r in t["adj"]))
     if k == "callable":
         return "<callable %s>" % t["name"]
     return k or "?"
@@ -216,12 +219,20 @@ def _diff(a, b, path, out):
             out.append(("dtype", path, "dtype %s -> %s" % (a["dtype"], b["dtype"])))
         if a.get("data") != b.get("data") or a.get("items") != b.get("items"):
             kind = "values"
+            detail = "%s -> %s" % (render(a, 100), render(b, 100))
             if a["dtype"] == b["dtype"] and "data" in a and "data" in b:
                 x = np.frombuffer(bytes.fromhex(a["data"]), dtype=np.dtype(a["dtype"]))
                 y = np.frombuffer(bytes.fromhex(b["data"]), dtype=np.dtype(b["dtype"]))
                 if x.size == y.size and sorted(x.tolist(), key=repr) == sorted(y.tolist(), key=repr):
                     kind = "order"
-            out.append((kind, path, "%s -> %s" % (render(a, 100), render(b, 100))))
+                elif x.size == y.size and x.size > 3:
+                    # long arrays: show where they differ instead of two truncated dumps
+                    xb = x.view(np.uint8).reshape(x.size, -1)
+                    yb = y.view(np.uint8).reshape(y.size, -1)
+                    idx = np.nonzero((xb != yb).any(axis=1))[0]
+                    detail = "%d of %d entries differ: %s" % (
+                        len(idx), x.size, ", ".join("flat[%d] %r -> %r" % (i, x[i].item(), y[i].item()) for i in idx[:3]))
+            out.append((kind, path, detail))
         if a.get("writeable") != b.get("writeable"):
             out.append(("flags", path, "writeable %s -> %s" % (a.get("writeable"), b.get("writeable"))))
     elif k == "seq":
@@ -866,6 +877,10 @@ def _special_builders(tier):
                     if not any(n in ("Sk0", "Ik0", "Rk0", "SkSl0", "SkIl0", "IkIl0", "Ssi0", "Isi0", "S_si0", "Skappa0")
                                for n in names) and var != "float":
                         continue
+                    if var == "list" and entry not in ("SIS_heterogeneous_meanfield", "SIR_heterogeneous_meanfield"):
+                        continue   # only these two convert their input with np.array(); the others document arrays
+                    if var == "fortran" and not any(n in ("SkSl0", "SkIl0", "IkIl0", "Ssi0", "Isi0", "S_si0") for n in names):
+                        continue
                     add(entry, "%s/%s/full=%d" % (g, var, full), fn)
     # Ks given explicitly (observed degrees only), as the from_graph wrappers do
     for entry, with_rec in (("SIS_heterogeneous_pairwise", False), ("SIR_heterogeneous_pairwise", True)):
@@ -1244,7 +1259,8 @@ def record(scn, seed=12345):
     for call in (0, 1):
         _seed(seed)
         try:
-            r = fn(**kw)
+            with contextlib.redirect_stdout(io.StringIO()):   # deprecation chatter of Gillespie_Arbitrary etc.
+                r = fn(**kw)
             tree = project_result(scn.entry, r)
             rtrees.append(tree)
             res.append(fingerprint(tree))
